@@ -470,6 +470,14 @@ class InProtocolBase(ProtocolMixin):
         if self.validator is self.SOFT_VALIDATION and not (
                                         cls.validate_string(cls, value)):
             raise ValidationError(value)
+
+        if isinstance(value, six.binary_type):
+            value = value.decode('utf8', 'replace')
+
+        if not (value in cls.__values__):
+            # not a member, whatever the validator setting is
+            raise ValidationError(value)
+
         return getattr(cls, value)
 
     def model_base_from_bytes(self, cls, value):
